@@ -430,6 +430,9 @@ impl Property for C09 {
         if src.contains("import! c09") {
             feats.push("imports_own_module".to_string());
         }
+        if src.split(|c: char| !c.is_alphanumeric() && c != '_').any(|w| w == "type") {
+            feats.push("type_definition".to_string());
+        }
         let show = || format!("input ({} bytes, implicit prelude {}):\n{}", src.len(), case["prelude"], src);
         match obs {
             Obs::TimedOut => {
